@@ -8,19 +8,19 @@ from .common import run_control, generic_rules
 
 def analyse(ctx: CheckContext, p: Program):
     r = Resolver(p)
-    generic_rules(ctx, p, r, "C07")
+    ctx.guard(generic_rules, ctx, p, r, "C07")
     eng = inval.InvalEngine(p, r)
     ctx.info["buffer_replacing_methods"] = {k: ("changes rows" if v else "same rows") for k, v in sorted(eng.events.items())}
     ctx.info["functions_that_may_insert_rows"] = sorted(f"{f.qualname}({', '.join(k + ':' + v for k, v in sm.items())})" for f, sm in eng.summary.items() if sm)
     funcs = r.pipeline_cone() if ctx.tier == "quick" else list(p.all_funcs)
     ctx.info["functions_scanned"] = len(funcs)
-    inval.check_views(ctx, eng, funcs)
-    inval.check_indices(ctx, eng, funcs)
-    inval.check_stale_derived(ctx, eng, funcs)
-    inval.check_source_column_readonly(ctx, eng)
-    inval.check_mirrored_branches(ctx, eng)
+    ctx.guard(inval.check_views, ctx, eng, funcs)
+    ctx.guard(inval.check_indices, ctx, eng, funcs)
+    ctx.guard(inval.check_stale_derived, ctx, eng, funcs)
+    ctx.guard(inval.check_source_column_readonly, ctx, eng)
+    ctx.guard(inval.check_mirrored_branches, ctx, eng)
     # the rebase amount is trustworthy: the returned count is the number of rows the buffer grew by
-    tables.check_insert_count(ctx, p, r)
+    ctx.guard(tables.check_insert_count, ctx, p, r)
 
 
 def run(ctx: CheckContext):
